@@ -416,8 +416,11 @@ def write_replay(pid, tier, n, payload):
     return path
 
 
+_REPLAY_SEQ = {}   # property -> replay files written by this process (stages of one check share the numbering)
+
+
 class Outcome(object):
-    """Collects violations / known findings of one check run."""
+    """Collects violations / known findings of one check run (or of one stage of it)."""
 
     def __init__(self, pid, tier):
         self.pid, self.tier = pid, tier
@@ -436,7 +439,8 @@ class Outcome(object):
                 v["count"] += 1          # same failure class: one replay is enough
                 return
         payload = dict(payload, property=self.pid, tier=self.tier, seed=seed(), signature=signature)
-        path = write_replay(self.pid, self.tier, len(self.violations) + 1, payload)
+        _REPLAY_SEQ[self.pid] = _REPLAY_SEQ.get(self.pid, 0) + 1
+        path = write_replay(self.pid, self.tier, _REPLAY_SEQ[self.pid], payload)
         self.violations.append(dict(signature=signature, replay=path, count=1))
         log("VIOLATION property=%s replay=%s" % (self.pid, path))
         log("  signature: %s" % signature)
